@@ -144,6 +144,15 @@ func layEqual(got, want *Lay, extraFeasible func(map[string]bool) bool) (bool, s
 	// atoms that are functions of one small integer parameter alone (masks of a flag byte, lookups in a
 	// constant table keyed by it) are not independent: they take exactly the joint values the parameter's
 	// values give them
+	// atoms without any variable ("(-1 == -1)" once a constant argument is substituted) have their value
+	fixed := map[string]bool{}
+	for _, a := range names {
+		if t := parseAtom(a, nil); t != nil {
+			if v, ok := evalTerm(t, map[string]*big.Int{}); ok {
+				fixed[a] = v.Sign() != 0
+			}
+		}
+	}
 	driver, driven, vectors := drivenAtoms(names)
 	var free []string
 	for _, a := range names {
@@ -165,7 +174,13 @@ func layEqual(got, want *Lay, extraFeasible func(map[string]bool) bool) (bool, s
 			for i, a := range free {
 				val[a] = mask&(1<<i) != 0
 			}
-			if !feasible(val) || (extraFeasible != nil && !extraFeasible(val)) {
+			okFixed := true
+			for a, v := range fixed {
+				if val[a] != v {
+					okFixed = false
+				}
+			}
+			if !okFixed || !feasible(val) || (extraFeasible != nil && !extraFeasible(val)) {
 				continue
 			}
 			n++
